@@ -192,7 +192,11 @@ def _(v):
     def check(label, build, npoints=6):
         worst, bad = 0, []
         for _ in range(npoints):
-            expr_res, expr_init, params = build()
+            try:
+                expr_res, expr_init, params = build()
+            except Exception as exc:
+                bad.append(("evaluation with sympy symbols raised", repr(exc)[:200]))
+                break
             for e in expr_res:
                 for tt in (sympy.Rational(1, 7), sympy.Rational(13, 10), 4):
                     val = abs(sympy.N(e.subs(t, tt), 60))
@@ -253,3 +257,47 @@ def _(v):
     v.prove_identity("ode", d, -2 * kf * x * x, rel=1e-7, abs_=1e-9)
     v.prove_identity("passes_through_initial_C_at_t0", v.call(fn, t0, kf, C0, P0, t0), C0)
     v.prove_identity("independent_of_P0", v.call(fn, t, kf, C0, P0, t0), v.call(fn, t, kf, C0, 1, t0))
+
+
+@harness("C17", "numeric_backends_over_the_whole_time_axis", functions=[MOD + ":dimerization_irrev", MOD + ":pseudo_irrev", MOD + ":pseudo_rev", MOD + ":binary_irrev", MOD + ":binary_rev",
+                                                                       MOD + ":unary_irrev_cstr", MOD + ":binary_irrev_cstr"], kind="data")
+def _(v):
+    """'can be evaluated with each numeric or symbolic backend … and give the same values' along the whole positive time axis, not only where the
+    exponentials are moderate: from t = 1e-9 to long after completion (rate constant x time up to 1e7, far beyond exp's float range 709) the numpy
+    and math backends return finite numbers that agree with the sympy backend's 50-digit value (relative 1e-9 plus the rounding of sums of
+    terms of the arguments' size, 1e-12 x the largest argument)"""
+    import math
+    import warnings
+    import numpy as np
+    import sympy
+    from chempy.kinetics import integrated as I
+    cases = [("dimerization_irrev", I.dimerization_irrev, (2.0, 1.5), False),
+             ("pseudo_irrev", I.pseudo_irrev, (2.0, 0.1, 3.0, 0.5), True), ("pseudo_rev", I.pseudo_rev, (2.0, 1.0, 0.1, 3.0, 0.5), True),
+             ("binary_irrev", I.binary_irrev, (2.0, 0.1, 3.0, 0.5), True), ("binary_irrev_fast", I.binary_irrev, (1e10, 0.0, 1.3e-6, 3e-7), True),
+             ("binary_rev", I.binary_rev, (2.0, 1.0, 0.1, 3.0, 0.5), True),
+             ("unary_irrev_cstr", I.unary_irrev_cstr, (2.0, 1.0, 0.1, 3.0, 0.5, 1.0), True), ("binary_irrev_cstr", I.binary_irrev_cstr, (2.0, 1.0, 0.1, 3.0, 0.5, 1.0), True),
+             ("binary_irrev_cstr_slow_feed", I.binary_irrev_cstr, (0.5, 0.2, 0.0, 1.0, 0.25, 40.0, 3), True)]
+    times = (1e-9, 1e-3, 0.3, 7.0, 100.0, 400.0, 1000.0, 1e5, 1e7)
+    ts = sympy.Symbol("t", positive=True)
+    for label, fn, args, has_backend in cases:
+        bad = []
+        try:
+            ex = fn(ts, *[sympy.nsimplify(a, rational=True) for a in args], **({"backend": sympy} if has_backend else {}))
+        except Exception as exc:
+            v.prove(label + ".finite_and_equal_to_the_symbolic_value", False, detail="symbolic backend: " + repr(exc)[:200])
+            continue
+        ex = ex if isinstance(ex, tuple) else (ex,)
+        for tt in times:
+            want = [sympy.N(e.subs(ts, sympy.nsimplify(tt, rational=True)), 50) for e in ex]
+            for be in (("numpy", "math") if has_backend else (None,)):
+                try:
+                    with warnings.catch_warnings():
+                        warnings.simplefilter("ignore")
+                        got = fn(tt, *args, **({"backend": be} if has_backend else {}))
+                except Exception as exc:
+                    bad.append((be, tt, repr(exc)[:60])); continue
+                got = got if isinstance(got, tuple) else (got,)
+                for g, w in zip(got, want):
+                    if not (math.isfinite(float(g)) and abs(float(g) - float(w)) <= 1e-9 * abs(float(w)) + 1e-12 * max(1.0, *map(abs, args))):
+                        bad.append((be, tt, float(g), float(w)))
+        v.prove(label + ".finite_and_equal_to_the_symbolic_value", not bad, detail=repr(bad[:3]))
